@@ -97,18 +97,10 @@ CLAIMS = {
          "(commuting: closure = generators, that many u(1)), a1 (closure = intervals, n(n-1)/2 = dim so(n)), b3 (all single-site strings, 3n). All other (family,n) decided "
          "per input by the Lean-verified closure invariants for 3<=n<=6/7 (size at 8) and classifier-vs-table to n=16/40. Refuted (known findings): a11, a12, a17 at n=3.",
          "generated-table tie theorems + all-n closure theorems for 5 families + Lean-verified closure per (family,n) + classifier correspondence"),
- "C05": ("other", "6.C05", "Partial proof + verified per-output decision + refutation. The search procedures of the compiler are NOT modelled. Proved in Lean for ALL N, k, targets, "
-         "sequences: the executable validator validSeq accepts exactly the sequences that are non-empty, inside construct_universal_set(N,k) (closed form proved for all N,k) and "
-         "whose nested commutator of the 2^N x 2^N matrices in the documented orientation equals c*M(target), c != 0 (C04 lifted along the list + non-proportionality of distinct "
-         "Pauli matrices); orientation lemma for _sequence_to_paulie_orientation. Per output: EVERY sequence compile_target returns for all 4^N-1 targets, N<=4 (thorough N<=5), every "
-         "2<=k<N, and samples 6<=N<=8, is judged by the compiled validator, cross-checked by dense numpy commutators for N<=4. The property is FALSE on the tree (C05_refuted: "
-         "(3,2,YIY) -> [XIZ,YII,XIZ]); the 1709 failing targets with N<=5 are recorded findings (known/compiler_failures.json), anything else is a violation.",
-         "Lean-verified validator evaluated on every returned sequence + refutation witness replayed + differential correspondence of the evaluation helpers"),
- "C06": ("other", "6.C06", "Refuted by observation, partially explained by proof. Totality concerns the unmodelled search; a raise cannot be exhibited in Lean. Lean proves the front end of "
-         "compile_target (guards, slicing) for all inputs, and for every N and odd k that NO sequence over the universal set evaluates to a target with Q=0 (so the compiler "
-         "must raise or return an invalid sequence there). The harness runs compile_target on all targets N<=4/5 and samples to N=8; the 612 raising targets with N<=5 are "
-         "recorded findings (exception type + raising function), any other raise is a violation.",
-         "exhaustive/sampled execution of the implementation + Lean obstruction theorem + differential correspondence of the front end"),
+ "C05": ("other", "6.C05", "Partial proof + exact model of the search + verified per-output decision + refutation. The WHOLE compile pipeline (subsystem_compiler, left_map_over_a, _case3_best_reordering with its interleaving generators and caps, _bfs_case3 with depth/node caps, compile, compile_target) is modelled in Lean (Model/CompilerSearch.lean, structural recursion on fuel) and tied to the code by exact correspondence: same returned sequence or same exception type raised by the same function for all 4^N-1 targets, N<=4 (thorough N<=5), every 2<=k<N, samples 6<=N<=8, and helper by helper. Proved in Lean for ALL N, k, targets, sequences: the executable validator validSeq accepts exactly the sequences that are non-empty, inside construct_universal_set(N,k) (closed form proved) and whose nested commutator of the 2^N x 2^N matrices in the documented orientation equals c*M(target), c != 0; orientation lemma; C05_verified_return: every sequence leaving compile through a return guarded by _nested_commutator_result == target reads as the target (never zero, never another string); C05_wI_valid: the W=I branch returns only valid sequences. The property is FALSE on the tree: C05_refuted_model / C05_refuted_zero_model are kernel-evaluated runs of the model ((3,2,YIY) -> [XIZ,YII,XIZ] via the unverified return). Per output: every returned sequence is judged by the compiled validator (dense numpy cross-check N<=4); the 1709 failing targets with N<=5 are recorded findings (known/compiler_failures.json, checked on every run to be exactly what the model produces); a failure at N>=6 is known only if the model returns the same sequence through the same unverified return with the same kind; anything else is a violation. NOT proved: universal-set membership on the verified returns of V!=I / V=I; the unverified returns; that the model's fuel is never exhausted.",
+         "exact Lean model of the search diffed against the implementation + Lean-verified validator on every returned sequence + kernel-evaluated refutation + soundness theorems for the verified returns"),
+ "C06": ("other", "6.C05", "Refuted inside Lean, partially explained by proof. The whole search is modelled exactly (see C05) and tied by correspondence (sequence or exception type@function). C06_refuted / C06_refuted_left_only / C06_refuted_even_k: kernel-evaluated runs of the model of compile_target raising RuntimeError in left_map_over_a / compile at (4,3,IXXX), (4,3,IXXI), (5,2,IIXXX). Proved for ALL inputs: front end (guards, slicing) and guards end to end; left_search_sound (a returned path is a walk of the generator graph from start to goal) and left_search_complete ('Left map BFS failed.' is raised only if the goal is unreachable); for every N and odd k: no sequence over the universal set evaluates to a Q=0 target (C06_obstruction_odd), the left search cannot join strings of different Q, and the model NEVER returns for V x I..I with an even number of non-identity letters in V (C06_fails_odd_wI). The harness runs compile_target on all targets N<=4/5 and samples to N=8; the 612 raising targets with N<=5 are recorded findings (= what the model produces, checked); a raise at N>=6 is known only if the model raises the same type in the same function; any other raise is a violation. NOT proved: that the model's fuel never runs out (separate error value, never observed); that the even-k raises are unavoidable.",
+         "exact Lean model of the search diffed against the implementation (exhaustive/sampled) + kernel-evaluated raise + BFS soundness/completeness + odd-k obstruction theorems"),
  "C07": ("other", "6.C07", "Size/distinctness/length of construct_universal_set: Lean proof for ALL N and 2<=k<N about the model (closed form), model tied by exhaustive correspondence N<=10/12. "
          "Generation: REFUTED in Lean for every N and every odd k (quadratic invariant Q with polar form omega, all 2N+1 generators have Q=1, X_{k+1} has Q=0), kernel anchor (4,3); "
          "for even k generation is kernel-checked for N<=4 and decided per (N,k) by the Lean-verified closure checker for N<=6/8 (+ Python closure, + classifier get_algebra()==su(2^N) to "
